@@ -221,7 +221,7 @@ class Contracts:
         if (d.endswith("Deref::deref") or d.endswith("DerefMut::deref_mut")) and x[3] and x[3][0][0] in ("ref", "aref"):
             locs = [r[1] for r, p in x[3][0][1] if r[0] == "loc" and not p]
             if len(locs) == 1:
-                e = A.R.local(locs[0])
+                e = A.R.init_expr(locs[0])
                 if e[0] == "call" and (e[1] or "").endswith("slice::<impl [T]>::to_vec") and e[3]:
                     return A.L.len_of(e[3][0])
         if d.endswith("slice::<impl [T]>::to_vec") and x[3]:
@@ -230,7 +230,7 @@ class Contracts:
         if (d.endswith("Deref::deref") or d.endswith("DerefMut::deref_mut")) and x[3] and x[3][0][0] in ("ref", "aref"):
             locs = [r[1] for r, p in x[3][0][1] if r[0] == "loc" and not p]
             if len(locs) == 1:
-                e = A.R.local(locs[0])
+                e = A.R.init_expr(locs[0])
                 if e[0] == "call" and (e[1] or "").endswith("vec::from_elem") and len(e[3]) == 2:
                     return A.L.lin(e[3][1])
         if d.endswith("Vec::<T, A>::as_mut_slice") or d.endswith("Vec::<T, A>::as_slice"):
